@@ -876,7 +876,7 @@ func stringsUpTo(alphabet []byte, n int) []string {
 }
 
 var extras = []string{
-	`\5C`, `\\`, `\2`, `\zz`, `\22`, `a\41b`, `\5c5C`, `\\5C`, `a\`, `\0`, `\00`, `"\22"`, `a"b`, `\"`,
+	`\5C`, `\\`, `\2`, `\zz`, `\5z`, `\4_`, `x\5zz`, `\4\4z`, `\\\5z`, `\22`, `a\41b`, `\5c5C`, `\\5C`, `a\`, `\0`, `\00`, `"\22"`, `a"b`, `\"`,
 	"0", "1", "42", "007", "00", "1a", "2b", "1_", "9.5", "1e5", "0x1F", "-1", "-", "a.b", "struct.foo", "a-b$c_d",
 	"4294967295", "4294967296", "9223372036854775807", "9223372036854775808", "18446744073709551615", "18446744073709551616", "99999999999999999999",
 	"世界", "\xE4\xB8", "a b", " a", "a ", "\t", "\r", "a\nb", "ret", "i32", "c", "x", "true", "null", "%a", "@a", "!a", "$a", "a:", "a=b", "a,b", "(a)", "{a}", "#0", ";a", "a;b",
